@@ -120,8 +120,11 @@ CFG = {
             "(2) object streams and cross-reference streams through filter chains other than none / one FlateDecode with stored blocks (Huffman-coded zlib streams, "
             "ASCIIHex, ASCII85, chains) - C06 has the layer theorems, they are not composed here; (3) hybrid files INSIDE the known finding (hidden generation 0: the model "
             "loses the object, hybrid_hidden_gen0_witness); (4) object-stream containers whose own /Length is a reference, containers listed but not defined; "
-            "(5) multi-revision files with hybrid sections or object streams (C04: histories of ANY number of revisions with classic tables and cross-reference streams in any mix are closed by C04.newest_wins_history_mix); (6) the generator link for hybrid layouts, object-stream members, multi-revision histories and "
-            "for non-scalar values. Technical side conditions of all end-to-end theorems: no byte 's' in the white space / comments between `startxref` and its number, no "
+            "(5) multi-revision files that COMBINE hybrid sections with object streams (C04, follow-up C03d: histories of ANY number of revisions are closed for classic tables and cross-reference streams in any mix "
+            "- C04.newest_wins_history_mix -, with hybrid sections incl. hidden objects - C04.newest_wins_history_hybrid, outside the decidable shape hiddenClash of finding #31 -, and with object streams "
+            "whose members no later revision mentions - C04.newest_wins_history_objstm); (6) the generator link for hybrid layouts, object-stream members and "
+            "for non-scalar values (the links (d) and (f) are now proved for a revision rendered at ANY position with ANY /Prev - LoaderE2E.cls_link / stm_link - and composed over renderRevs for histories "
+            "of any number of revisions: C04.render_history_loads_partial). Technical side conditions of all end-to-end theorems: no byte 's' in the white space / comments between `startxref` and its number, no "
             "further %%EOF after the last one, files below 2^63 bytes where object streams are involved.",
         "load_never_panics_partial":
             "FULL STATEMENT WANTED: for all inputs parseData never reaches a panic site. PROVED: for every input below 2^62 bytes no panic site of "
